@@ -86,6 +86,8 @@ def dec_value(v):
         kind, items = v
         if kind == "bytes":
             return bytes.fromhex(items)
+        if kind == "range":
+            return list(range(items[0], items[1]))        # a long list of values (a thousand and more)
         return {"list": list, "tuple": tuple, "set": set}[kind]([dec_value(x) for x in items])
     return v
 
@@ -552,6 +554,9 @@ def st_cond(draw, depth=0):
     op = draw(st.sampled_from(ops))
     if op in ("=", "!="):
         val = draw(st.one_of(st_operand(col), st.builds(lambda: lst())))
+    elif op in ("IN", "NOT IN") and not istext and draw(st.integers(0, 7)) == 0:
+        lo = draw(st.integers(-1300, -3))
+        val = ["range", [lo, lo + draw(st.sampled_from([999, 1000, 1001, 1002, 1500, 2001]))]]
     elif op in ("IN", "NOT IN"):
         if draw(st.integers(0, 3)) == 0:
             items = draw(st.lists(st_colval(col, nullable=False), max_size=4, unique=True))
